@@ -9,6 +9,7 @@ import (
 	"net"
 	"crypto/ecdh"
 	"crypto/ed25519"
+	"crypto/rand"
 	"crypto/sha256"
 	"crypto/x509"
 	"encoding/hex"
@@ -125,6 +126,23 @@ func IfBytes(c bool, a, b []byte) []byte {
 	}
 	return b
 }
+
+// FillRandom writes n random bytes to the front of p and zeroes the rest.
+func FillRandom(p []byte, n int) {
+	for i := range p {
+		p[i] = 0
+	}
+	if n > len(p) {
+		n = len(p)
+	}
+	if _, err := rand.Read(p[:n]); err != nil {
+		panic(err)
+	}
+}
+
+// ShortScenario states the clock assumption "everything from here on happens within d of base" (engine: bounds every
+// later clock reading; natively the harness simply runs that fast).
+func ShortScenario(base time.Time, d time.Duration) {}
 
 func Assume(b bool) {
 	if !b {
